@@ -7,16 +7,16 @@ package ina
 // document / body position.
 //@ func IsURL
 //@   property C10
-//@   sweep idx slice div assert
+//@   sweep idx slice div assert extnil
 //@   opaque
 //@   modifies models.URL::*!Hops!Redirects
 //@ func IsAPIURL
 //@   property C10
-//@   sweep idx slice div assert
+//@   sweep idx slice div assert extnil
 //@   opaque
 //@   modifies models.URL::*!Hops!Redirects
 //@ func ExtractMedias
 //@   property C10
-//@   sweep idx slice div assert
+//@   sweep idx slice div assert extnil
 //@   opaque
 //@   modifies models.URL::*!Hops!Redirects
